@@ -307,6 +307,24 @@ impl World {
                 lines.push(format!("{who} folder {fname} mirror {mirror}"));
             }
         }
+        // the folder passwords the identity folder currently hands out (fingerprints)
+        {
+            use sos_login::DelegatedAccess;
+            let mut ks: Vec<String> = vec![];
+            for id in &ids {
+                let fp = match account.find_folder_password(id).await {
+                    Ok(Some(AccessKey::Password(p))) => {
+                        use secrecy::ExposeSecret;
+                        use sha2::Digest;
+                        hex::encode(&sha2::Sha256::digest(p.expose_secret().as_bytes())[..4])
+                    }
+                    Ok(Some(_)) => "identity".to_string(),
+                    _ => "-".to_string(),
+                };
+                ks.push(format!("{}={fp}", self.fname(id)));
+            }
+            lines.push(format!("!{who} idkeys {}", ks.join(";")));
+        }
         // search index
         if let Ok(index) = account.search_index().await {
             let index = index.read().await;
@@ -501,7 +519,12 @@ impl World {
                     _ => {
                         use sos_login::DelegatedAccess;
                         self.counter += 1;
-                        let key: AccessKey = secrecy::SecretString::new(format!("new-folder-password-{}", self.counter).into()).into();
+                        let new_pw_text = format!("new-folder-password-{}", self.counter);
+                        let new_fp = {
+                            use sha2::Digest;
+                            hex::encode(&sha2::Sha256::digest(new_pw_text.as_bytes())[..4])
+                        };
+                        let key: AccessKey = secrecy::SecretString::new(new_pw_text.into()).into();
                         // what the old key opened before the change
                         let storage = ClientStorage::new_unauthenticated(account.backend_target().await, &self.account_id).await.ok();
                         let old_key = account.find_folder_password(&fid).await.ok().flatten();
@@ -555,7 +578,8 @@ impl World {
                             }
                             report = format!("old_before={} old_unlock={old_unlock} new_unlock={new_unlock} blobs={total} old_opens={opens}", if old_ok_before { "ok" } else { "err" });
                         }
-                        self.keycheck = Some(report);
+                        let fname = self.fname(&fid);
+                        self.keycheck = Some(format!("{report} folder={fname} newfp={new_fp} changed={}", r.is_ok() as u8));
                         res!(r)
                     }
                 }
